@@ -322,6 +322,32 @@ def gen_build_case(rng, idx, tier):
     return case
 
 
+def gen_cfg_case(rng):
+    """A case in the subset SB21Helper can express; section ids are positions, one MAC entry per section, the padding
+    policy is global (zeroPadding), the certificate block carries the build number."""
+    zero = rng.choice([0, 1])
+    secs = []
+    for i in range(rng.choice([2, 2, 3, 4])):
+        cmds = []
+        for _ in range(rng.choice([1, 2, 3, 5])):
+            c = gen_cmd(rng)
+            while c[0] in (0, 1, 5, 8) or (c[0] == 2 and c[2] == 4) or (c[0] == 10 and (c[3] == 0 or c[4] != 0 or c[5] != 0)):
+                c = gen_cmd(rng)
+            if c[0] == 2:
+                c[4] = zero
+            cmds.append(c)
+        secs.append({"uid": i, "hmac": 1, "zero": zero, "cmds": cmds})
+    nonce = bytearray(rng.getrandbits(8) for _ in range(16))
+    nonce[15] &= 0x7F
+    return {"via": "config", "zero_padding": zero,
+            "kek": bytes(rng.getrandbits(8) for _ in range(32)).hex(), "dek": bytes(rng.getrandbits(8) for _ in range(32)).hex(),
+            "mac": bytes(rng.getrandbits(8) for _ in range(32)).hex(), "nonce": bytes(nonce).hex(),
+            "pad": (bytes(8) if zero else rnd_pattern(8)).hex(), "ts": 1600000000 + rng.randrange(0, 10 ** 8),
+            "pv": gen_version(rng), "cv": gen_version(rng), "build": rng.choice([1, 7, rng.getrandbits(32)]),
+            "flags": rng.choice([0x0008, 0x8008]), "secs": secs, "chain": rng.choice(["r2048", "c2048x2", "c2048x3"]),
+            "rkh_index": 0, "rkh_fill": 0}
+
+
 FIXED_CASES = [
     # chain whose root key (RSA-4096) and signing key (RSA-2048) differ in size: CertBlockV1.signature_size is the ROOT's
     {"kek": "5a" * 32, "dek": "01" * 32, "mac": "02" * 32, "nonce": "10" * 12 + "00000000", "pad": "00" * 8, "ts": 1600000000,
@@ -408,9 +434,9 @@ def rom_cmd_value(c):
 
 
 THEOREM_FILES = ["cmd_roundtrip", "rom_cmd_decodes", "cmd_stream_roundtrip", "header_roundtrip", "layouts_agree",
-                 "counter_agreement", "counter_per_block", "hmac_groups_cover", "keyblob_unwraps", "rom_section_decodes",
-                 "rom21_build_except_known", "rom21_build_fixed", "rom21_build_sha_refuted", "sections_all", "coverage21",
-                 "parse21_first_section", "parse21_refuted", "parse21_accepts_only_verified"]
+                 "counter_agreement", "counter_agreement_aes", "counter_per_block", "hmac_groups_cover", "keyblob_unwraps",
+                 "keyblob_unwraps_aes", "rom_section_decodes", "rom21_build", "rom21_build_aes", "rom21_old_builder_sha_refuted",
+                 "sections_all", "coverage21", "spsdk_parse21_build", "spsdk_parse21_build_aes", "parse21_accepts_only_verified"]
 
 
 def run(tier):
@@ -432,7 +458,7 @@ def run(tier):
     # (P) proofs
     model_ok, mout = vlib.coq_make(["Model/Sb2Model.vo"])
     theorems = list(THEOREM_FILES)
-    vlib.check_theorems(rep, PID, theorems, ["Proofs/Sb2Proofs.vo"])
+    vlib.check_theorems(rep, PID, theorems, ["Proofs/Sb2AesProofs.vo"])
     if thorough:
         vlib.coqchk(rep, PID, theorems)
     vlib.audit(rep)
@@ -441,6 +467,8 @@ def run(tier):
     # ------------------------------------------------------------------ cases
     nfiles = 170 if thorough else 26
     cases = [dict(c) for c in FIXED_CASES] + [gen_build_case(rng, i, tier) for i in range(nfiles)]
+    # images made by BootImageV21.load_from_config (what the BD / YAML front ends feed): >= 2 sections, every section has commands
+    cases += [gen_cfg_case(rng) for _ in range(40 if thorough else 6)]
     ops = []
     for i, case in enumerate(cases):
         wrong_kek = bytes(rng.getrandbits(8) for _ in range(32)).hex()
@@ -458,7 +486,10 @@ def run(tier):
     # the runner needs non-negative offsets: resolve negative ones in a second pass -> simpler: two-phase run
     chains_needed = sorted({c["chain"] for c in cases})
     res1 = vlib.run_impl("c04_impl.py", {"keydir": KEYDIR, "need_chains": chains_needed,
-                                          "ops": [{"op": "build", "case": c, "parses": []} for c in cases]}, timeout=3000)
+                                          "ops": [({"op": "build_cfg", "case": c, "workdir": os.path.join(WORKDIR, "cfg", str(i))}
+                                                   if c.get("via") == "config" else {"op": "build", "case": c, "parses": []})
+                                                  for i, c in enumerate(cases)]}, timeout=3000)
+    shutil.rmtree(os.path.join(WORKDIR, "cfg"), ignore_errors=True)
     built = res1["results"]
     chain_info = res1["chains"]
     ops2, opmap = [], []
@@ -652,14 +683,12 @@ def run(tier):
                     exprs.append(f"run_case 1 [{lit(v_case(case, b['cb'], sig))}]")
                     expect.append(("b", data))
                     label.append(("build21", i))
-                    if case["flags"] & SHA_BIT:
-                        # known class C04-F2: the model of the repaired builder is evaluated too, so that an upstream
-                        # repair of the block counts is not reported as a disagreement
-                        exprs.append(f"run_case 8 [{lit(v_case(case, b['cb'], sig))}]")
-                        expect.append(("bfixed", data))
-                        label.append(("build21_fixed", i))
-                elif b["export"][1] in (1, 2) and "cb" not in b:
-                    pass          # cert block data unavailable when the export failed: compared through command-level cases
+                elif "cb" in b:
+                    # export raised: the model gets a signature of the signing key's size and must raise the same kind
+                    ci = chain_info[case["chain"]]
+                    exprs.append(f"run_case 1 [{lit(v_case(case, b['cb'], bytes(ci['leaf_size'])))}]")
+                    expect.append(("berr", b["export"][1]))
+                    label.append(("build21", i))
             # parser
             seen_variants = {}
             for (i, p, d), r in zip(opmap, res2):
@@ -676,10 +705,7 @@ def run(tier):
                 sl = 208 + b["cb"]["raw_size"] + (32 if fl & SHA_BIT else 0)
                 ok = rsa_pkcs1v15_sha256_verify(int(ci["n"]), ci["e"], d[:sl], d[sl:sl + b["cb"]["sig_size"]])
                 exprs.append(f"run_case 2 [VInt {1 if ok else 0}; VInt {b['cb']['sig_size']}; {lit(VB(bytes.fromhex(p['kek'])))}; {lit(VB(d))}]")
-                known_class = len(case["secs"]) > 1 or case["flags"] != 0x8008       # C04-F1
-                want_full = {"secs": [[s_[0], s_[3], s_[2]] for s_ in b["built"]], "pv": bcd(case["pv"]), "cv": bcd(case["cv"]),
-                             "build": case["build"], "ts": (case["ts"] - EPOCH2000) * 1000000, "flags": case["flags"]}
-                expect.append(("parse", r, known_class, want_full))
+                expect.append(("parse", r))
                 label.append(("parse21", i, p))
             # ROM model on SPSDK's bytes
             for i, (case, b) in enumerate(zip(cases, built)):
@@ -717,31 +743,18 @@ def run(tier):
             model = vlib.run_model_cases("c04", "Value Sb2Model", exprs, shard=60 if not thorough else 120, timeout=1500,
                                          jobs=8)
             ndis = {}
-            built_match, repaired = {}, set()
             for e, m, lb in zip(expect, model, label):
                 good = True
                 if e[0] == "b":
                     good = m == e
-                    built_match[lb[1]] = good
-                    if not good and cases[lb[1]]["flags"] & SHA_BIT:
-                        continue          # decided by the build21_fixed entry that follows
-                elif e[0] == "bfixed":
-                    good = built_match.get(lb[1], False) or m == ("b", e[1])
-                    if good and not built_match.get(lb[1], False):
-                        repaired.add("C04-F2")
-                    lb = ("build21",) + tuple(lb[1:])
+                elif e[0] == "berr":
+                    good = m[0] == "e" and m[1] == e[1]
                 elif e[0] == "parse":
                     r = e[1]
                     if r[0] == "e":
                         good = m[0] == "e" and m[1] in (1, 2)
                     else:
                         good = m[0] == "l" and list(m[1][:9]) == parsed_value(r[1])
-                    if not good and e[2]:
-                        # known class C04-F1: a parser that returns everything that was built (or raises on a damaged
-                        # file) is what the property demands; accept it instead of the modelled defect
-                        if r[0] == "e" or all(r[1][k] == w for k, w in e[3].items()):
-                            good = True
-                            repaired.add("C04-F1")
                 elif e[0] == "rom":
                     r = e[1]
                     if r is None:
@@ -778,9 +791,6 @@ def run(tier):
                 rep.obligation(f"correspondence:{name} model=implementation", ndis.get(name, 0) == 0,
                                f"{ndis.get(name, 0)} disagreements" if ndis.get(name) else "")
             n_model = len(exprs)
-            for fid in sorted(repaired):
-                vlib.log(f"  note: the implementation no longer shows {fid} (outputs match the specification side of the model); "
-                         "the finding entry and the faithful model should be flipped")
         except Exception as ex:  # noqa
             rep.obligation("correspondence:model evaluation", False, repr(ex)[-1500:])
             n_model = 0
@@ -793,6 +803,7 @@ def run(tier):
     nsha = sum(1 for c, b in zip(cases, built) if b["export"][0] == "ok" and c["flags"] & SHA_BIT)
     nmulti = sum(1 for c, b in zip(cases, built) if b["export"][0] == "ok" and len(c["secs"]) > 1)
     tags = sorted({c[0] for case in cases for s in case["secs"] for c in s["cmds"]})
+    rep.coverage["built_by_load_from_config"] = sum(1 for c, b in zip(cases, built) if c.get("via") == "config" and b["export"][0] == "ok")
     rep.add_stream("SB2.1 files built by BootImageV21.export and processed by the ROM reference", len(cases), n_build_ok,
                    samples=[{k: v for k, v in c.items() if k != "secs"} for c in cases[:3]],
                    extra={"with_sha_flag": nsha, "multi_section": nmulti, "command_tags_used": tags,
@@ -812,7 +823,7 @@ def run(tier):
                       "Python reference ROM in tools/props/c04.py over cryptography's AES-ECB / key unwrap and hashlib",
                       "RSA PKCS#1 v1.5 verification and X.509 handling are outside Coq (signature is an obligation)",
                       "block cipher inverse law D k (E k b) = b is an explicit premise of the ROM theorems"],
-        checker_cmd="coqc -R . V Props/C04/*.v (after make Proofs/Sb2Proofs.vo)",
+        checker_cmd="coqc -R . V Props/C04/*.v (after make Proofs/Sb2AesProofs.vo)",
         assumptions=["all command fields within the range of their container field", "block counter nonce[12:16] + blocks < 2^32",
                      "signature length equals CertBlockV1.signature_size (all keys of the chain have one size)"])
 
